@@ -45,10 +45,11 @@ func Run(c *verdict.Ctx) int {
 const maxCutsPerCrash = 8
 
 type hist struct {
-	c    *verdict.Ctx
-	idx  int
-	base string
-	rep  *reporter
+	stream string // "" for the plain histories; names the family otherwise
+	c      *verdict.Ctx
+	idx    int
+	base   string
+	rep    *reporter
 }
 
 func genCfg(r *rand.Rand) histCfg {
@@ -311,6 +312,9 @@ func (hs *hist) startDir(m2 *model, dir string, rep *reporter, skipCatchup bool)
 	if err != nil {
 		return nil, nil, false, err
 	}
+	if hs.stream == idxStream {
+		idxObserve(hs.c, m2)
+	}
 	if info.Repaired {
 		hs.c.Count("starts_with_repair", 1)
 	}
@@ -343,7 +347,7 @@ func (hs *hist) startDir(m2 *model, dir string, rep *reporter, skipCatchup bool)
 // loses nothing, and a second start.
 func (hs *hist) probe(m *model, snap snapshot, p cutPlan, cyc, pi int, nontrivialBase bool) {
 	c := hs.c
-	r := c.Rand("probe", hs.idx*1000+cyc*100+pi)
+	r := c.Rand("probe"+hs.stream, hs.idx*1000+cyc*100+pi)
 	rep := hs.rep.child(p)
 	rep.weak = p.SyncedCorruption
 	skip := !rep.weak && r.Intn(10) == 0
@@ -427,7 +431,7 @@ func (hs *hist) probe(m *model, snap snapshot, p cutPlan, cyc, pi int, nontrivia
 		lv3.stop()
 	}
 	if (checked || checked2) && nontrivialBase {
-		c.Distinct("probe", hs.idx, cyc, p.Cut, p.Class, p.FlipAt, p.FlipMask, skip)
+		c.Distinct("probe"+hs.stream, hs.idx, cyc, p.Cut, p.Class, p.FlipAt, p.FlipMask, skip)
 	}
 }
 
@@ -454,6 +458,12 @@ func runHistory(c *verdict.Ctx, idx int, base string) {
 		return
 	}
 	c.Eval()
+	hs.cycles(r, cfg, m, lv)
+}
+
+// cycles runs the operate / crash / probe / restart loop on a started WAL.
+func (hs *hist) cycles(r *rand.Rand, cfg histCfg, m *model, lv *live) {
+	c, idx := hs.c, hs.idx
 	for cyc := 0; cyc < cfg.Cycles; cyc++ {
 		nops := 3 + r.Intn(28)
 		for i := 0; i < nops; i++ {
@@ -520,7 +530,7 @@ func runHistory(c *verdict.Ctx, idx int, base string) {
 			return
 		}
 		if checked && nontrivial {
-			c.Distinct("main", idx, cyc, p.Cut, p.Class, p.FlipAt, p.FlipMask)
+			c.Distinct("main"+hs.stream, idx, cyc, p.Cut, p.Class, p.FlipAt, p.FlipMask)
 		}
 		if rep.dirty {
 			lv2.stop()
@@ -562,6 +572,8 @@ func runStorage(c *verdict.Ctx) {
 			runRace(c, base)
 		case "bigrec", "rawgroup":
 			runBig(c, base)
+		case idxStream:
+			runIdx(c, base)
 		case "history":
 			runHistory(c, w.Index, base)
 		}
@@ -608,6 +620,7 @@ func runStorage(c *verdict.Ctx) {
 	c.Set("histories", n)
 	runRace(c, base)
 	runBig(c, base)
+	runIdx(c, base)
 	c.Count("hook_autofile_synced_hits", verifhook.Hits("autofile.synced"))
 	c.Count("hook_group_rotate_hits", verifhook.Hits("group.rotate"))
 	c.Count("hook_group_removed_hits", verifhook.Hits("group.removed"))
